@@ -12,7 +12,7 @@ claim('C18',
       'Trusted: cbmc; abstract engine contract; frames per call <= 3 (4 thorough); datatypes/layout/engine/channels enumerated per obligation.')
 
 for pid in [
-            'C17']:
+            ]:
     na(pid, 'check under construction in this session (breadth-first build order of DESIGN.md section 12); not yet claimed')
 
 claim('C03',
@@ -69,3 +69,8 @@ claim('C12',
 claim('C16',
       'Bounded proof over the real vr32.c arithmetic: slew set-up (sign, total movement within one LSB per frame of the target, division paths agree), per-frame stepping of poly_fir_u/d (position += step, step += step_step exactly once), forwarding of ratio/slew to every channel and refusal of a ratio change by constant-rate engines (real soxr.c, one call from any state).',
       'Partial: the audio statements (-80 dB residual, no discontinuity at ratio changes / stage cross-fades) are floating-point properties and are NOT decided; the stage-switch rescaling inside vr_process is not covered by the unit obligations; slew lengths from a stated list, |target-step| < 2^20 (quick).')
+
+claim('C17',
+      'Bounded proof over all interleavings (cbmc concurrency mode, sequential consistency) of 2 threads x 1 call (quick) and 2x2 / 3x1 (thorough) through the real ccrw2.h lock macros and the real cache-update code of fft4g_cache.h: locks initialised once and before use, released only when held, tables never reallocated/re-sized during another thread\'s transform, writer exclusive, termination with all locks free and fft_len == max length.',
+      'Known finding KF_C17_LAZY_INIT (unguarded first-use initialisation) is reported as KNOWN-FINDING and excluded from the proved twin by initialising before the threads start. Trusted: cbmc partial-order encoding; lock model; table pointers encoded as integer handles (mechanical rewrite regenerated from the current header); lengths in {8,16,32}; vr32 fade_coefs init and _soxr_trace_level race not encoded.',
+      technique='bounded model checking of concurrent C (cbmc 6.11 concurrency mode: symbolic partial-order encoding of all interleavings under sequential consistency, SAT/cadical) over the real lock macros and cache-update code with modelled OpenMP locks')
